@@ -142,6 +142,77 @@ def runHist (ops : List Arg) : Option String := do
     fmtList (st.tracked.map (·.1)) ++ "#" ++
     "[" ++ ",".intercalate (st.tracked.map fun t => fmtDigests t.2) ++ "]")
 
+
+/-! free hash algebra and the bounded model check (a *test*): all MMR shapes up to `N` leaves with every leaf tracked
+(the update routines treat the handed proofs independently, so this covers every tracked subset and, for the returned
+index lists, the identity order): appends (single and batch routine), every single mutation (single and batch routine),
+every ordered pair of mutated leafs for shapes up to `K` leaves and sibling/neighbour pairs above, every ordered triple
+up to 8 leaves (both batch routines) — compared with the from-scratch `authPathOf`/`peaks` of the changed leaf list;
+returned "modified" lists compared with the proofs that changed. -/
+inductive T where
+  | leaf (n : Nat)
+  | node (l r : T)
+deriving DecidableEq, Repr
+
+open TF.Spec.MmrE in
+def stateOk (st : HState T) (g : Nat → T) (n : Nat) : Bool :=
+  st.acc.count == n && st.acc.peaks == peaks T.node n g &&
+    st.proofs == (List.range n).map (authPathOf T.node g n)
+
+def changed (before after : List (List T)) : List Nat :=
+  (List.range before.length).filter fun i => before[i]? != after[i]?
+
+open TF.Spec.MmrE in
+def checkBatch (st : HState T) (g : Nat → T) (n : Nat) (ms : List (Nat × T)) : Bool :=
+  let g' := setLeafs g ms
+  let lis := List.range n
+  match st.step T.node (.batch ms), ms.mapM (fun m => (st.proofs[m.1]?).map
+      (fun pi => ({ leaf_index := m.1, new_leaf := m.2, path := pi } : LeafMutation T))) with
+  | some st', some lms =>
+    stateOk st' g' n &&
+    (match st.acc.batchMutateLeafAndUpdateMps T.node st.proofs lis lms,
+           batchUpdateFromBatchLeafMutation T.node st.proofs lis lms with
+      | some (_, ps1, m1), some (ps2, m2) =>
+        ps1 == st'.proofs && ps2 == st'.proofs && m1 == changed st.proofs ps1 && m2 == changed st.proofs ps2
+      | _, _ => false)
+  | _, _ => false
+
+open TF.Spec.MmrE in
+def freeCheck (N K : Nat) : Bool := Id.run do
+  let g : Nat → T := fun i => T.leaf (i + 1)
+  let nv : Nat → T := fun i => T.leaf (1000 + i)
+  let mut st : HState T := { acc := { count := 0, peaks := [] }, proofs := [] }
+  let mut ok := true
+  for n in [0:N] do
+    -- the state over the first `n` leaves: mutations
+    for j in [0:n] do
+      let g' := setLeaf g j (nv j)
+      match st.step T.node (.mutate j (nv j)), st.proofs[j]? with
+      | some st', some pj =>
+        ok := ok && stateOk st' g' n
+        match batchUpdateFromLeafMutation T.node st.proofs (List.range n) { leaf_index := j, new_leaf := nv j, path := pj } with
+        | some (ps, ms) => ok := ok && ps == st'.proofs && ms == changed st.proofs ps
+        | none => ok := false
+      | _, _ => ok := false
+      -- pairs
+      for j2 in [0:n] do
+        if j2 != j && (n ≤ K || j2 == j ^^^ 1 || j2 == (j + 1) % n) then
+          ok := ok && checkBatch st g n [(j, nv j), (j2, nv j2)]
+          if n ≤ 8 then
+            for j3 in [0:n] do
+              if j3 != j && j3 != j2 then
+                ok := ok && checkBatch st g n [(j, nv j), (j2, nv j2), (j3, nv j3)]
+    -- append leaf `n`
+    match st.step T.node (.append (g n)) with
+    | some st' =>
+      ok := ok && stateOk st' g (n + 1)
+      match batchUpdateFromAppend T.node st.proofs (List.range n) n (g n) st.acc.peaks with
+      | some (ps, ms) => ok := ok && ps == st'.proofs.take n && ms == changed st.proofs ps
+      | none => ok := false
+      st := st'
+    | none => ok := false
+  return ok
+
 def mmrp : Handler
   | "verify", [.sym _, .nat i, leaf, peaks, .nat n, path] => do
     let leaf ← leaf.natList?
@@ -153,6 +224,7 @@ def mmrp : Handler
   | "hist", [.list ops] => some (match runHist ops with
       | some s => "ok:" ++ s
       | none => "panic")
+  | "free_check", [.nat n, .nat k] => some ("ok:" ++ fmtBool (freeCheck n k))
   | _, _ => none
 
 end TF.Drv.MmrMember
